@@ -159,6 +159,7 @@ type Block struct {
 	sig   []byte
 	hash  *Hash
 	owner *Node // node whose library instance built it (nil for adversary-made)
+	fromPre bool // anti-MEV: transactions were taken from the pre-block; SetTransactions is only a signal
 }
 
 var _ dbft.Block[Hash] = (*Block)(nil)
@@ -205,7 +206,11 @@ func (b *Block) Verify(key dbft.PublicKey, sign []byte) error {
 	return nil
 }
 func (b *Block) Transactions() []dbft.Transaction[Hash]       { return b.txs }
-func (b *Block) SetTransactions(t []dbft.Transaction[Hash])   { b.txs = t }
+func (b *Block) SetTransactions(t []dbft.Transaction[Hash]) {
+	if !b.fromPre {
+		b.txs = t
+	}
+}
 
 type PreBlock struct {
 	Header
